@@ -90,17 +90,24 @@ theorem C09_container :
     · exact this.1
     · exact this.2
 
-/-- what a *child* of the program does when it exits or is killed by a non-limit signal never
-finishes the ptrace run nor changes the verdict (the child is just continued/forgotten). -/
+/-- what a *child* of the program does when it exits or is killed by a signal other than SIGSYS
+never finishes the ptrace run nor changes the verdict (the child is just continued/forgotten).
+A child killed by SIGSYS — the seccomp filter's kill — ends the run as Disallowed Syscall (C03). -/
 def childIgnored (ws : Nat) : Bool :=
   match runPtrace mainPid otherPid ws true true {} with
   | .ok r => !r.finished && r.status == Int.ofNat Gen.Consts.runner_StatusNormal
   | .error _ => false
 
+def childDisallowed (ws : Nat) : Bool :=
+  match runPtrace mainPid otherPid ws true true {} with
+  | .ok r => r.status == Int.ofNat Gen.Consts.runner_StatusDisallowedSyscall
+  | .error _ => false
+
 theorem C09_children_ignored :
     exitCodes.all (fun c => childIgnored (WaitStatus.ofExit c)) = true ∧
-    signals.all (fun s => childIgnored (WaitStatus.ofSignal s false) && childIgnored (WaitStatus.ofSignal s true)) = true := by
-  constructor <;> decide +kernel
+    (signals.filter (· != 31)).all (fun s => childIgnored (WaitStatus.ofSignal s false) && childIgnored (WaitStatus.ofSignal s true)) = true ∧
+    (childDisallowed (WaitStatus.ofSignal 31 false) && childDisallowed (WaitStatus.ofSignal 31 true)) = true := by
+  refine ⟨?_, ?_, ?_⟩ <;> decide +kernel
 
 /-- signals whose default action terminates and that the classifier does not turn into a limit
 verdict at the signal-delivery stop (SIGXCPU/SIGXFSZ are C08's) -/
